@@ -5,6 +5,7 @@ package core
 
 import (
 	"cmp"
+	"strings"
 
 	"github.com/apmckinlay/gsuneido/core/types"
 	"github.com/apmckinlay/gsuneido/util/dnum"
@@ -242,7 +243,10 @@ func intable(s string, exp int8, xor byte) bool {
 	if exp < e || (exp == e && (s[len(s)-1]^xor)%10 != 0) {
 		return false // has a fractional part
 	}
-	return PackedMinInt64 <= s && s <= PackedMaxInt64
+	// negative numbers are complemented so a shorter digit string (a proper prefix)
+	// is the larger value although it sorts first byte-wise
+	return (PackedMinInt64 <= s || strings.HasPrefix(PackedMinInt64, s)) &&
+		s <= PackedMaxInt64
 }
 
 func unpackDnum(s string, sign, exp int8, xor byte) dnum.Dnum {
